@@ -660,3 +660,30 @@ def c05_extra(backend):
     out.append(prog(f"Select(EventDataset('ds'), lambda e: e.{P}('A').Select(lambda j: addmul(j.eta(), twice(j.pt()))).Sum())", [f1, f2]))
     out.append(prog(f"Select(SelectMany(EventDataset('ds'), lambda e: e.{P}('A')), lambda j: (twice(j.pt()), j.eta()))", [f1]))
     return out
+
+
+# ------------------------------------------------------------------ C18: several literals in one query
+def c18_programs(backend):
+    """Equal-valued literals of different kind in ONE query (2 / 2.0, 1 / 1.0 / True, 0 / 0.0 / False), in
+    both orders and several positions: each must keep its own value and kind."""
+    v = VOCAB[backend]
+    P = v["prim"]
+    groups = [("2", "2.0"), ("1", "1.0"), ("1", "True"), ("1.0", "True"), ("0", "0.0"), ("0", "False"), ("3", "3.0"), ("10", "10.0"), ("1000", "1000.0")]
+    out = []
+
+    def add(q):
+        out.append(make_program(q.replace("PRIM", P), backend, tags=("literals",)))
+    for a, b in groups:
+        for x, y in ((a, b), (b, a)):
+            if y not in ("0", "0.0", "False"):
+                if x in ("1", "1.0", "2", "2.0"):
+                    add(f"Select(Where(EventDataset('ds'), lambda e: e.PRIM('A').Count() >= {x}), lambda e: e.PRIM('A').Count() / {y})")
+                if x != "True":
+                    add(f"Select(Where(EventDataset('ds'), lambda e: e.PRIM('A').Select(lambda j: j.pt()).Sum() >= {x}), lambda e: e.PRIM('A').Count() / {y})")
+                add(f"Select(EventDataset('ds'), lambda e: e.PRIM('A').Select(lambda j: (j.nTrk() + {x}) / {y}))")
+                add(f"Select(EventDataset('ds'), lambda e: e.PRIM('A').Where(lambda j: j.pt() > {x}).Select(lambda j: j.nTrk() / {y}))")
+            add(f"Select(SelectMany(EventDataset('ds'), lambda e: e.PRIM('A')), lambda j: (j.nTrk() + {x}, j.nTrk() + {y}))")
+            add(f"Select(EventDataset('ds'), lambda e: e.PRIM('A').Select(lambda j: j.nTrk() * {x} + j.nTrk() * {y}))")
+            add(f"Select(EventDataset('ds'), lambda e: ({x}, {y}, e.PRIM('A').Count()))")
+            add(f"Select(EventDataset('ds'), lambda e: e.PRIM('A').Select(lambda j: {x} if j.pt() > {y} else j.nTrk()))")
+    return out
